@@ -10,7 +10,8 @@ from vf.instr import Patch
 LEVEL = "exploration"
 RULE = ("full in-memory stack; byte strings of EVERY length 0..3100 (covering the 1024-byte read size and the 2048-character junk "
         "threshold in raw and base64 terms; quick: each length under one rotating configuration, thorough: under every configuration, "
-        "plus 64 KiB - 4 MiB payloads) with seeded random contents covering all 256 byte values, formats incl. empty and non-ASCII; "
+        "both plus 64 KiB - 300 KB payloads, thorough up to 4 MiB; the in-memory writer applies asyncio's write-buffer limits, so drain() of a "
+        "connection with more than 64 KiB in flight waits until the peer has read down to 16 KiB) with seeded random contents covering all 256 byte values, formats incl. empty and non-ASCII; "
         "wire fragmentation {1024, 1 byte, random}; configurations: driver->real Client (control=Never + dedicated BLOB "
         "connection=Only), driver->single-connection client with policy {unset, Never, Also, Only} on a threshold-free or "
         "threshold-enabled link, real Client->driver upload; each followed by further traffic and by a delivery that is held "
@@ -20,7 +21,7 @@ RULE = ("full in-memory stack; byte strings of EVERY length 0..3100 (covering th
 ASSUMPTIONS = ["payloads are published after the client's handshake (incl. its enableBLOB) has been processed",
                "known finding: a payload message longer than the junk threshold on a link whose threshold is enabled is dropped"]
 REQUIRED_EVENTS = ["sessions", "payloads_published", "payloads_uploaded", "payloads_verified", "no_payload_checks", "republished_same_object",
-                   "buffer_process_calls_guarded", "half_way_holds", "following_traffic_checks"]
+                   "buffer_process_calls_guarded", "half_way_holds", "following_traffic_checks", "drains_that_waited_for_a_slow_peer"]
 
 FORMATS = [".fits", "", ".bin", ".é", ".fits.z", ".ÿ<&>"]
 FRAGS = ["1024", "1", "random"]
@@ -281,6 +282,7 @@ async def session(ctx, case):
                     ctx.violate("non-blob-traffic-on-only-connection", "the Only connection received a text update after its handshake", case)
                     return False
         ctx.counters["buffer_process_calls_guarded"] = ctx.counters.get("buffer_process_calls_guarded", 0) + stats["calls"]
+        ctx.count("drains_that_waited_for_a_slow_peer", sum(w.writer.drains_paused for l in sess.links for w in l.wires()))
         ctx.notes["max_line_events_in_one_process_call"] = max(ctx.notes.get("max_line_events_in_one_process_call", 0), stats["max_steps"])
         await sess.close()
         return True
@@ -349,6 +351,15 @@ def run(ctx):
             one_case(ctx, {"n": n, "config": cfg, "frag": frag, "fmt": k})
             if ctx.enough():
                 return
+        # payloads beyond the transport's write-buffer limit (64 KiB): the sender's drain() really waits for the slow peer
+        j = 0
+        for n in (65536, 70000, 100000, 150000, 200001, 300000):
+            for ci, c in enumerate(CONFIGS):
+                j += 1
+                if c[0] == "single-also-threshold" or not ctx.mine(3101 + j):
+                    continue
+                one_case(ctx, {"n": n, "config": c[0], "frag": ["1024", "random", "whole"][(j + ctx.seed) % 3], "fmt": j})
+                ctx.count("payloads_beyond_write_buffer_limit")
         return
     for n in range(0, 3101):
         for ci, c in enumerate(CONFIGS):
